@@ -487,6 +487,26 @@ def check(ctx):
                 qs = [q for q in closure_paths(ctx, clo) if q.end == "return"]
                 okw = len(qs) == 1 and callee_is(qs[0].ret, "bool::then_some") and callee_is(qs[0].ret[3][0], "PartialEq::eq") and \
                     peel(qs[0].ret[3][1], ())[0] == "field" and peel(qs[0].ret[3][1], ())[2] == 1 and mentions(qs[0].ret[3][0], ("param", 2))
+    if not okw:
+        # the same clause for the keyed lookup `self.input_instructions.get(name)`: HashMap::get finds the entry whose key == name
+        from . import ckit as K
+        lps = K.live(ctx.cpaths(wi))
+        gets = {K.strip(c, calls=()) for q in lps for c in q.calls() if callee_is(c, "HashMap::get")}
+        g = list(gets)[0] if len(gets) == 1 else None
+        okg = g is not None and len(g[3]) == 2 and self_field(K.strip(g[3][0], calls=()), "input_instructions") and K.strip(g[3][1], calls=()) == ("param", 2)
+        n_ret = 0
+        for q in lps if okg else []:
+            if q.end == "return":
+                n_ret += 1
+                r = q.ret
+                okg = okg and K.discr_is(q, lambda o: K.strip(o, calls=()) == g, 1) and callee_is(r, "Instruction::perform") and len(r[3]) == 2 and r[3][1] == ("param", 1) and \
+                    callee_is(peel(r[3][0], ()), "Clone::clone") and K.strip(peel(r[3][0], ())[3][0], calls=()) == ("field", g, 0, "Some") and \
+                    len([c for c in q.calls() if callee_is(c, "Instruction::perform")]) == 1
+            else:
+                okg = okg and q.end == "diverge" and K.discr_is(q, lambda o: K.strip(o, calls=()) == g, 0) and not [c for c in q.calls() if callee_is(c, "Instruction::perform")]
+        okw = okg and n_ret == 1
+        if okw:
+            detail = "perform(clone(input_instructions.get(name)?), self)"
     ctx.check(okw, "R01.6", "with_input/performs-clone-of-instruction-bound-to-name", detail[:300], wi.at(),
               bad_detail="with_input must look the name up by key equality, clone that instruction and perform it on self; extracted " + detail[:400])
     # ---- R01.7 ---------------------------------------------------------------------------
